@@ -24,6 +24,12 @@ CHECKS = {
         text="For every parser, emitter, doctrans, sync, sync_properties and gen entry point, every reachable EXEC / dynamic-import / spawn / network / file-write site is in the declared inventory (a new or newly reachable site fails a named obligation); "
              "sync_properties cannot reach the eval of the input module unless input_eval; the one eval reachable from parsers receives only strings built from characters that passed the word_chars/separator filter and clean constants (no '(' , '_' , '=' , ':' , '@'). Holds for all inputs because the obligations never look at the input.",
         note="Assumed: call graph over-approximates real calls (dynamic dispatch of get_parser/get_emitter declared), primitive-effect tables complete, evaluating a clean expression against docstring_parsers' globals is harmless (not proved), third-party code (black) has no such effects."),
+    "C20": dict(
+        category="other", design_ref="DESIGN.md §5 C20, §2.2",
+        technique="contract-based frame verification: flag-guard dominance (dry_run) over the call-graph closure of exmod (E2); remaining clauses by a bounded run of the real CLI with file-system snapshots",
+        text="PROVED for all inputs (frame condition): no file-system write site in the call-graph closure of exmod is reachable when dry_run is true (one obligation per write site, flag followed through keyword/positional/partial passing, with cover obligations against vacuity). "
+             "BOUNDED, not proved: containment under the output directory, validity of generated files and their __all__, source package untouched, blacklist/whitelist — real CLI over a stated option matrix on a generated package. One known finding (output directory named 'gold').",
+        note="Assumed: call graph over-approximates real calls; FS_WRITE primitive table complete; the path-taint contract of DESIGN §5 C20(b) was not built."),
 }
 
 NA_REASON = "check not built yet (work in progress; see DESIGN.md for the plan)"
@@ -40,7 +46,7 @@ m = {
     },
     "engines": [
         {"name": "cddvc-E1", "path": "cddvc/symexec.py", "serves_properties": sorted(CHECKS), "kind_free_text": "AST -> verification conditions (symbolic execution with contracts, loop invariants/variants, abstract list views) discharged by z3 5.1 / cvc5 / z3 4.8"},
-        {"name": "cddvc-E2", "path": "cddvc/effects.py", "serves_properties": ["C17"], "kind_free_text": "effect / frame checker over the call graph, flag-guard dominance; cddvc/charset.py refinement check"},
+        {"name": "cddvc-E2", "path": "cddvc/effects.py", "serves_properties": ["C17", "C20"], "kind_free_text": "effect / frame checker over the call graph, flag-guard dominance; cddvc/charset.py refinement check"},
         {"name": "cddvc-E5", "path": "cddvc/termination.py", "serves_properties": ["C11"], "kind_free_text": "termination rules over the import-aware call graph (cddvc/callgraph.py)"},
     ],
     "checks": [],
